@@ -449,6 +449,9 @@ def function_lints(m, qn, fn):
     out += [("uint-arith", n, msg) for n, msg in uint_arith(fn)]
     out += [("stale-buffer", n, msg) for n, msg in stale_buffer(fn)]
     out += [("assert-falls", n, msg) for n, msg in assert_falls(m, fn, qn)]
+    out += [("sample-membership", n, msg) for n, msg in sample_membership(fn)]
+    out += [("unsafe-int-cast", n, msg) for n, msg in unsafe_int_cast(fn)]
+    out += [("flag-equality", n, msg) for n, msg in flag_equality(fn)]
     return out
 
 
@@ -890,3 +893,92 @@ def sample_row_index(ctx, py, rule="PY-SAMPLE-INDEX", mod="trees", cls="TreeSequ
                            "`%s`: `%s` has one row per sample and `%s` holds node ids" % (ast.unparse(x)[:40], x.value.id, sl.id))
     ctx.ob(rule, "instances", True, m.rel, "%d subscripts of per-sample arrays analysed" % n)
     return n
+
+
+def open_mode(ctx, py, rule="PY-OPEN-MODE"):
+    ctx.rule(rule, "util.convert_file_like_to_open_file opens a path with exactly the mode it was asked for: every open() / os.fdopen() "
+                   "in it passes the `mode` parameter itself (a literal or computed mode – \"r+b\" for an existing file – would leave "
+                   "the old tail of a longer file behind a shorter dump, so that prefixes of the file load)")
+    m = py.mod("util")
+    fn = m.funcs.get("convert_file_like_to_open_file")
+    if fn is None:
+        ctx.need(False, "util.convert_file_like_to_open_file")
+    n = 0
+    for c in ast.walk(fn):
+        if isinstance(c, ast.Call) and ast.unparse(c.func) in ("open", "os.fdopen", "io.open"):
+            n += 1
+            md = c.args[1] if len(c.args) > 1 else next((k.value for k in c.keywords if k.arg == "mode"), None)
+            ok = isinstance(md, ast.Name) and md.id == "mode"
+            ctx.ob(rule, "open@%d" % n, ok, m.loc(c), "`%s` uses the requested mode" % ast.unparse(c)[:50] if ok else
+                   "`%s` does not pass the caller's mode" % ast.unparse(c)[:60])
+    ctx.ob(rule, "instances", n >= 1, m.rel, "%d open calls" % n)
+    return n
+
+
+def sample_membership(fn):
+    """[(node, message)]: `u in A` where u runs over range(num_samples) (a sample INDEX) and A is a sample set (node IDs)."""
+    out = []
+    a = fn.args
+    if "sample_sets" not in {p_.arg for p_ in a.args + a.kwonlyargs}:
+        return out
+    for comp in ast.walk(fn):
+        gens = comp.generators if isinstance(comp, (ast.ListComp, ast.GeneratorExp, ast.SetComp)) else None
+        loops = [(g.target, g.iter) for g in gens] if gens else ([(comp.target, comp.iter)] if isinstance(comp, ast.For) else [])
+        for tgt, it in loops:
+            if isinstance(tgt, ast.Name) and isinstance(it, ast.Call) and ast.unparse(it.func) == "range" and "num_samples" in ast.unparse(it):
+                for c in ast.walk(comp):
+                    if isinstance(c, ast.Compare) and isinstance(c.left, ast.Name) and c.left.id == tgt.id and any(isinstance(o, (ast.In, ast.NotIn)) for o in c.ops):
+                        out.append((c, "`%s`: `%s` runs over range(num_samples) – a sample INDEX – but sample sets hold node IDs "
+                                    "(iterate self.samples())" % (ast.unparse(c)[:40], tgt.id)))
+    return out[:1]
+
+
+def unsafe_int_cast(fn):
+    """[(node, message)]: a caller-supplied id array narrowed with np.array(p, dtype=np.int32) / p.astype(np.int32): values that
+    do not fit wrap around and floats truncate, silently.  util.safe_np_int_cast raises instead."""
+    out = []
+    params = {p_.arg for p_ in fn.args.posonlyargs + fn.args.args + fn.args.kwonlyargs} - {"self", "cls"}
+    narrow = re.compile(r"\b(u?int(8|16|32))\b")
+    for x in ast.walk(fn):
+        if not isinstance(x, ast.Call):
+            continue
+        f = ast.unparse(x.func)
+        if f in ("np.array", "np.asarray", "np.ascontiguousarray", "numpy.array") and x.args and isinstance(x.args[0], ast.Name) \
+                and x.args[0].id in params and any(k.arg == "dtype" and narrow.search(ast.unparse(k.value)) for k in x.keywords):
+            out.append((x, "`%s` narrows the caller's `%s` without a range check (use util.safe_np_int_cast): 2**32 + k becomes k, 1.7 becomes 1"
+                        % (ast.unparse(x)[:50], x.args[0].id)))
+        elif isinstance(x.func, ast.Attribute) and x.func.attr == "astype" and isinstance(x.func.value, ast.Name) and x.func.value.id in params \
+                and x.args and narrow.search(ast.unparse(x.args[0])):
+            out.append((x, "`%s` narrows the caller's `%s` without a range check (use util.safe_np_int_cast)" % (ast.unparse(x)[:50], x.func.value.id)))
+    return out
+
+
+def flag_equality(fn):
+    """[(node, message)]: a flags word compared with `==` to one flag constant: any other bit set (a user flag) makes it unequal."""
+    out = []
+    for x in ast.walk(fn):
+        if isinstance(x, ast.Compare) and len(x.ops) == 1 and isinstance(x.ops[0], (ast.Eq, ast.NotEq)):
+            l, r = ast.unparse(x.left), ast.unparse(x.comparators[0])
+            for a_, b_ in ((l, r), (r, l)):
+                if re.search(r"flags(\[.*\])?$", a_) and re.search(r"(NODE_IS_SAMPLE|\bNODE_[A-Z_]+|_FLAG\b)", b_) and "&" not in a_:
+                    out.append((x, "`%s` compares a flags word for equality with one flag: a node that carries any other bit is "
+                                "missed (test `flags & FLAG`)" % ast.unparse(x)[:50]))
+    return out[:1]
+
+
+def sort_last(ctx, py, rule="PY-SORT-LAST"):
+    ctx.rule(rule, "load_text repairs the row order once everything has been parsed: its call to <tables>.sort() comes after every "
+                   "parse_* call that fills a table of the collection and directly feeds tree_sequence(); rows parsed after the "
+                   "sort (migrations, most easily) reach the tree sequence unsorted")
+    m = py.mod("trees")
+    fn = m.funcs.get("load_text")
+    if fn is None:
+        ctx.need(False, "trees.load_text")
+    sorts = [c for c in ast.walk(fn) if isinstance(c, ast.Call) and isinstance(c.func, ast.Attribute) and c.func.attr == "sort"]
+    parses = [c for c in ast.walk(fn) if isinstance(c, ast.Call) and ast.unparse(c.func).startswith("parse_")]
+    ok = len(sorts) == 1 and bool(parses) and all(p_.lineno < sorts[0].lineno for p_ in parses)
+    late = [p_ for p_ in parses if sorts and p_.lineno > sorts[0].lineno]
+    ctx.ob(rule, "load_text|sort-after-parse", ok, m.loc(late[0] if late else (sorts[0] if sorts else fn)),
+           "sort() follows all %d parse_* calls" % len(parses) if ok else
+           ("`%s` runs after the repair sort" % ast.unparse(late[0].func) if late else "load_text has %d sort() calls" % len(sorts)))
+    return 1
